@@ -261,7 +261,7 @@ macro_rules | `(tactic| mc_step) => `(tactic| with_reducible apply Pool.mc_stepC
 theorem mc_workerCancelled {p : Pool} (h : MC p) (t : Nat) (tk : PTask) : MC (p.workerCancelled t tk) := by
   unfold workerCancelled; mc_auto
 macro_rules | `(tactic| mc_step) => `(tactic| with_reducible apply Pool.mc_workerCancelled)
-theorem mc_workerNext {p : Pool} (h : MC p) (t : Nat) : MC (p.workerNext t) := by
+theorem mc_workerNext {p : Pool} (h : MC p) (t : Nat) (tk : PTask) : MC (p.workerNext t tk) := by
   unfold workerNext; mc_auto
 macro_rules | `(tactic| mc_step) => `(tactic| with_reducible apply Pool.mc_workerNext)
 theorem mc_stepInWorker {p : Pool} (h : MC p) (t : Nat) (tk : PTask) : MC (p.stepInWorker t tk) := by
